@@ -124,6 +124,14 @@ def run(tier, seed, t0):
         for order in (True, False):
             for L in lens:
                 jobs.append(lambda L=L, comp=comp, order=order: ob_encrypt(L, comp, order))
+    # the other half of the round trip: decrypt (obligations of C06) on well-formed lengths, and the C1 encoder / decoder (C19)
+    import c06, c19
+    for comp in (False, True):
+        for order in (True, False):
+            c1 = 33 if comp else 65
+            for m in ((1, 32, 33) if tier == "quick" else (1, 2, 31, 32, 33, 64, 65)):
+                jobs.append(lambda L=c1 + 32 + m, comp=comp, order=order: c06.ob_decrypt(L, comp, order))
+    jobs += [lambda: c19.ob_to_byte_be(True), lambda: c19.ob_to_byte_be(False), lambda: c19.ob_from_byte_lengths(33), lambda: c19.ob_from_byte_lengths(65)]
     res = run_parallel(jobs, nproc=14)
     return finish("C05", tier, seed, "model_checking", res, t0,
                   assumptions=["hash/group/field layers uninterpreted; the round trip decrypt(encrypt(M)) = M follows from this structure + C06's accepting-path characterisation + the group law (C11) + encode/decode (C19)",
